@@ -197,12 +197,45 @@ T = {
              "built-in left operand narrower than int shifted by a native-tag wrapper: uint8_t{200} << W{1} == 144, and the result type is uint8_t", ["C12"]),
  "M-C04-6": ("C04", "elastic scale<> (negative shift): the divisor 1 << k built in a type of WIDTH k + 1, one digit short for signed narrowest types (elastic_integer/scale.h)",
              "scaled_integer over a signed elastic_integer<N>, N > 31, conversion dropping exactly 31 (or 63) binary digits: 5.75 -> -5", ["C04", "C09", "C01"]),
+ "M-C18-6": ("C18", "trailing_bits of a signed value counts on static_cast<std::uintmax_t>(n), a 64-bit type (numeric.h)",
+             "cnl::trailing_bits<cnl::int128_t> of a non-zero value with 65 or more trailing zero bits: 1 << 100 gives 64", ["C18"]),
+ "M-C15-6": ("C15", "the same edit as M-C18-6 (std::uintmax_t in trailing_bits), proposed independently for the deduction-from-constants clause (numeric.h)",
+             "make_elastic_scaled_integer / make_static_number / make_scaled_integer of a constant wider than 64 bits with more than 64 trailing zero bits: 2^70 deduces power<64>", ["C15", "C18"]),
+ "M-C06-6": ("C06", "overflow_polarity<subtract_op> mirrored: rhs == 0 moved to the positive side (overflow/builtin_overflow.h, GCC path)",
+             "GCC build, signed - unsigned of at least int rank, lhs < 0 and rhs == 0: int{-1} - 0u saturates to 4294967295", ["C06", "C07", "C12"]),
+ "M-C14-6": ("C14", "to_chars_non_zero: static_cast<number>(-value) narrows the magnitude of a negative value back to the operand type (charconv/to_chars.h)",
+             "std::int8_t{-128} or std::int16_t{-32768}: prints characters below '0'", ["C14", "C13"]),
+ "M-C13-6": ("C13", "num_digits_to_binary, case 8: (num_digits + 2) / 3 (the inverse function's formula) instead of num_digits * 3 (scaled_integer/to_chars_capacity.h)",
+             "scaled_integer with radix 8 and a positive exponent printed through to_chars_static / to_string / operator<<: capacity 4 instead of 14 for uint8 power<12, 8>", ["C13", "C14"]),
+ "M-C08-6": ("C08", "neg_inf divide: the remainder != 0 guard of the floor correction dropped (rounding/neg_inf_rounding_tag.h)",
+             "neg_inf_rounding_tag, negative divisor, exactly divisible operands (incl. 0): 6 / -3 == -3", ["C08", "C11"]),
+ "M-C11-6": ("C11", "the same edit as M-C03-1 (left operand of a mixed-exponent comparison widened from the RIGHT rep), proposed independently for the composite types (scaled_integer/operators.h)",
+             "comparison of two static_numbers with different exponents, coarser and wider operand on the left: wrong truth value (native tag) or a spurious overflow signal", ["C11", "C03", "C12"]),
+ "M-C05-6": ("C05", "the same edit as M-C03-1, proposed independently for elastic_scaled_integer comparisons (scaled_integer/operators.h)",
+             "elastic_scaled_integer<30, power<0>> compared with elastic_scaled_integer<4, power<-2>>, left value at least 2^29", ["C05", "C03", "C12"]),
+ "M-C09-6": ("C09", "the neg_inf scaled_integer -> plain integer converter forwards to the tie_to_pos_inf converter (copy-paste tag) (scaled_integer/convert_operator.h)",
+             "convert<neg_inf_rounding_tag, int> of a scaled_integer with a negative exponent and a fractional part of at least 1/2: 5.5 -> 6", ["C09", "C08"]),
+ "M-C07-6": ("C07", "the same edit as M-C11-5 (postfix ++ / -- of the overflow layer re-dispatched with the default tag), proposed independently for the UB-freedom property (overflow/custom_operator.h)",
+             "a++ at max() / a-- at lowest() of an overflow_integer with a signed rep: INT_MAX + 1 executed as native signed arithmetic", ["C07", "C06"]),
+ "M-C19-6": ("C19", "eval_subtract_n: the borrow taken as the whole high half of the double-limb difference (255) instead of 1 (ckormanyos/uintwide_t.h)",
+             "cnl::sqrt on a multi-limb wide_integer (D > 128), any operand above 2^64: the remainder update num -= root + bit borrows across a limb", ["C19", "C10", "C01"]),
+ "M-C02-6": ("C02", "Knuth division, step D6: the add-back no longer decrements q_hat, so the stored quotient limb is one too high while the remainder is right (ckormanyos/uintwide_t.h)",
+             "scaled_integer over a multi-limb wide_integer, divisor of at least two limbs in an add-back case: rep(a) = 2^96 + 1, rep(b) = 2^95 + 1 gives a/b == 2", ["C02", "C10"]),
 }
 
 
 # id -> what happened when the change was first run against the checks, and what was strengthened because of it
 HIST = {
  "M-C10-2": "missed at first (limb arithmetic was declared undecided): the limb algebra (vlib/limbalg.py) was written for it; C10 now re-expresses + - * unary- ++ -- << >> of 8 (q) / 70 multi-limb instantiations as integer polynomials over the limbs and reports this change with a counterexample on the fast path (b2 == 0, b3 != 0)",
+ "M-C18-6": "missed at first (the two-word dependence rule sees the high word in the `value ? ... : 0` test): width rule added (the countr_zero reached from trailing_bits<T> works on the unsigned type of T's width, 8 types)",
+ "M-C15-6": "reported by C18's width rule (added for M-C18-6), not by C15, whose deduction facts stop at 64-bit constants",
+ "M-C14-6": "missed at first: rule R10 added (to_chars_non_zero of a signed type narrower than int hands the digit generator a magnitude type that can hold 2^(w-1))",
+ "M-C13-6": "missed at first: the capacity facts of integral scaled types had radix 2 and 10 only; radix 8, 16 and 3 added",
+ "M-C11-6": "reported by C03 and C12, which own the mixed-exponent comparison; C11's static_number lines compare equal exponents",
+ "M-C05-6": "reported by C03 and C12 (as M-C11-6)",
+ "M-C19-6": "reported by C10 and C01 (limb algebra: multi-limb subtraction), not by C19, which decides sqrt's types, termination and start bit and leaves the digit-by-digit values and the rep's own arithmetic to their owners",
+ "M-C07-6": "identical to M-C11-5 (proposed independently): reported by the ++ / -- lines added for that change",
+ "M-C02-6": "NOT reported: inside Knuth's division (see M-C04-5); the third seeded change in that function, which sub-agents reach for once everything else in the multi-limb back end is decided",
  "M-C10-4": "NOT reported: inside Knuth's division (see M-C04-5)",
  "M-C01-6": "missed at first: no elastic rep with digits + shift at a 32 / 64 boundary was in the matrix; six boundary pairs added (which needed one more normaliser rule: sign extension of a shift through an immaterial zero extension)",
  "M-C20-3": "missed at first (the coefficient certificate's necessary bound is 12 units, the change moves coefficients by one): rounding_conversion == round-to-nearest is now an EQ obligation over all doubles in [0, 1)",
